@@ -367,8 +367,26 @@ func c19History(rt *rapid.T) {
 		next := loaded
 		next.Invalid = false
 		nextNode := certNode
-		what := rapid.SampledFrom([]string{"identical", "settings-only", "settings-only", "new-rules", "new-rules", "revert", "edit-rules", "invalid", "cert-unsafe", "dlca"}).Draw(rt, "reloadKind")
+		what := rapid.SampledFrom([]string{"identical", "settings-only", "settings-only", "new-rules", "new-rules", "revert", "edit-rules", "invalid", "cert-unsafe", "dlca", "many-then-new-rules"}).Draw(rt, "reloadKind")
 		switch what {
+		case "many-then-new-rules":
+			// an operator's SIGHUP habit: N reloads that each flip a non-rule setting, then one that changes
+			// the rules. However the per-flow record of "rules version last validated against" is encoded, a
+			// flow that saw no packet across all of them is revalidated against the rules in force now.
+			n := rapid.SampledFrom([]int{254, 255, 256, 511}).Draw(rt, "manyReloads")
+			for k := 0; k < n; k++ {
+				flip := loaded
+				flip.Invalid = false
+				if flip.OutAction == "drop" {
+					flip.OutAction = "reject"
+				} else {
+					flip.OutAction = "drop"
+				}
+				reload(flip, certNode, "setting-flip")
+			}
+			labels["many-reloads-between-packets"]++
+			next = loaded
+			next.Rules = c19GenRules(rt)
 		case "identical":
 		case "settings-only":
 			c19GenSettings(rt, &next)
